@@ -21,13 +21,13 @@ ID = "C12"
 PROPS = ["props/C12.v"]
 EXTRACTS = ["C12"]
 THEOREMS = [
-    "C12_harvest_exact_partial", "C12_glued_text_reparses_flat", "C12_parser_fuel_enough",
-    "C12_declared_marker_is_conjunction", "C12_or_marker_refuted", "C12_extra_colon_key_refuted",
-    "C12_dotdot_spelling_refuted", "C12_cfg_only_refuted",
+    "C12_harvest_exact_partial", "C12_glued_text_reparses_flat", "C12_parenthesised_text_is_a_group", "C12_parser_fuel_enough",
+    "C12_declared_marker_is_conjunction",
+    "C12_dotdot_spelling_refuted", "C12_cfg_only_found",
     "C12_route_independent_partial", "C12_route_pyproject_refuted", "C12_finish_exact",
     "C12_packaging_independent_open", "C12_packaging_independent", "C12_packaging_independent_exists_partial",
     "C12_exists_dirs_refuted", "C12_real_cwd_irrelevant",
-    "C12_frame", "C12_sequence_independent", "C12_failure_is_local",
+    "C12_frame", "C12_sequence_independent", "C12_failure_is_local", "C12_failure_is_metadata_failure",
 ]
 RULE = ("(a) generated setup()/setup.cfg declarations (canonical and re-spelled requirement lines, markers with "
         "and/or/groups, extras keys 'e', ':marker', 'e:marker', blank, quoted; str-vs-list shapes; ~15% malformed: bad "
@@ -58,21 +58,18 @@ ASSUMPTIONS = [
     "os.rename (Extractor.renames) is not part of the modelled idiom family; empty directories are not modelled",
     "the egg_info / wheel-build fall-backs are observed as 'fallback requested' (stubbed in T2 except for a small sample)",
 ]
-LEVEL_TEXT = ("16 theorems over Gallina models of the setup()/setup.cfg harvester and of the three extractors' path "
-              "resolution: harvest = declared meaning for EVERY declaration inside a decidable guard (canonical heads, markers "
-              "that re-parse to themselves with no top-level 'or' where texts are glued, extras keys 'extra' or ':marker'), "
-              "re-parsing 'A and B' is the flat concatenation for all texts, the declared marker means the conjunction for ALL "
-              "markers, the parser never runs out of fuel; open() resolves every plainly spelled path (relative, './', absolute "
-              "below the virtual cwd, after any chdir) to the same member in directory/.tar.gz/.zip for ALL projects, and never "
-              "consults the real file system / real cwd; six _refuted witnesses (or-precedence, 'extra:marker' keys, '..' "
-              "spellings, setup.cfg-only and pyproject-only projects in archives, directory members missing from a tar), four "
-              "of them replayed on /repo as known findings.  That real setup.py programs of the idiom family stay inside these "
-              "models is TESTED (T2 b: generated programs x 3 packagings x 3 cwds x shuffled orders), not proved.  Frame "
-              "condition (orders / earlier analyses / failures): over a state machine {cwd, sys.path, hooks, project modules, "
-              "patched attributes} whose clean-up steps are generated from /repo's finally-blocks, one analysis gives the state "
-              "back for EVERY script (raising, sys.exit, any sys.path surgery or insertion, chdir, failing PEP 517 "
-              "hook included), hence every sequence gives each project the result it gets alone (full strength since the "
-              "sys.path restore of 6eecba5; the former leak is a fixed finding whose witness must keep passing).")
+LEVEL_TEXT = ("19 theorems over Gallina models of the setup()/setup.cfg harvester, of the three extractors' path resolution "
+              "and of the bracket around one analysis: harvest = declared meaning for EVERY declaration inside a decidable guard "
+              "(canonical heads, own markers that re-parse to themselves, key names without quotes; `or` markers and the keys "
+              "'extra', ':marker', 'extra:marker' all inside), re-parsing 'A and B' is the flat concatenation and '(A)' a group for "
+              "all texts, the declared marker means the conjunction for ALL markers, the parser never runs out of fuel; open() "
+              "resolves every plainly spelled path (relative, './', absolute below the virtual cwd, after any chdir) to the same "
+              "member in directory/.tar.gz/.zip for ALL projects and never consults the real file system / real cwd; setup.cfg-only "
+              "projects find their setup.cfg in all packagings; every analysis gives the process state back and every failure is a "
+              "metadata failure of that project, hence any sequence gives each project the result it gets alone; three _refuted "
+              "witnesses remain ('..' spellings, directory members missing from a tar, pyproject-only projects in archives - the last "
+              "a known finding).  That real setup.py programs of the idiom family stay inside these models is TESTED (T2: generated "
+              "programs x 3 packagings x 3 cwds x orders and sequences), not proved.")
 LEVEL_NOTE = ("Trusted: Coq kernel, extraction, OCaml driver, T1/T2 harness; packaging/configparser/tarfile/zipfile semantics "
               "validated by sampling only; no semantics of Python: arbitrary setup scripts are outside the theorems.")
 TECHNIQUE = "Rocq proof over Gallina models (lexer automaton + fuelled parser compositionality, path algebra) + extraction-based differential correspondence"
@@ -225,7 +222,7 @@ def gen_strs(rng, canonical: bool, allow_or: bool, malformed: float) -> Any:
 def gen_decl(rng, mode: str) -> Dict[str, Any]:
     """mode: 'wf' (inside the guard of harvest_exact), 'respelled' (any spelling/keys/or), 'malformed'."""
     canonical = mode == "wf"
-    allow_or = mode != "wf"
+    allow_or = True            # since the parenthesising repair `or` is inside the guard
     malformed = 0.25 if mode == "malformed" else 0.0
     d: Dict[str, Any] = {"framework": False, "cfg": None}
     d["name"] = rng.choice(NAMES + ["my proj"]) if mode != "wf" else rng.choice(NAMES)
@@ -233,13 +230,13 @@ def gen_decl(rng, mode: str) -> Dict[str, Any]:
     d["install"] = gen_strs(rng, canonical, allow_or, malformed)
     keys = list(KEYS_PLAIN)
     if mode == "wf":
-        keys += KEYS_ENV
+        keys += KEYS_ENV + KEYS_ENV_OR + [k for k in KEYS_COLON if k != "a:b"]
     else:
         keys += KEYS_ENV + KEYS_ENV_OR + KEYS_COLON + KEYS_ODD
     ks = rng.sample(keys, rng.choice([0, 1, 1, 2, 3]))
     d["extras"] = []
     for k in ks:
-        v = gen_strs(rng, canonical, allow_or and not k.startswith(":"), malformed)
+        v = gen_strs(rng, canonical, allow_or, malformed)
         if isinstance(v, str) and mode == "wf":
             v = [v]
         d["extras"].append([k, v])
@@ -598,7 +595,7 @@ def t2_direct(ctx: Ctx, enc440, S) -> None:
             if h != m:
                 ctx.mismatch("harvest-vs-declared-inside-guard", d, h, m)
         elif h[0] == "OK" and m[0] == "OK" and h != m:
-            ctx.count("direct:harvest-differs-from-declared (known defects)")
+            ctx.count("direct:harvest-differs-from-declared (outside the guard)")
 
 
 # ======================================================================================
@@ -722,9 +719,9 @@ def install_probe(S) -> Tuple[Probe, Any]:
     sys.modules["c12probe"] = probe
     old = S._parse_setup_py
 
-    def wrapped(name, setup_file, extractor):
+    def wrapped(name, setup_file, extractor, *args, **kwargs):
         probe.extractor = extractor
-        return old(name, setup_file, extractor)
+        return old(name, setup_file, extractor, *args, **kwargs)
     S._parse_setup_py = wrapped
     return probe, old
 
@@ -2107,8 +2104,7 @@ def search(ctx: Ctx) -> Optional[Dict[str, Any]]:
 
 
 def in_guard(d: Dict[str, Any]) -> bool:
-    """the decidable guard of C12_harvest_exact_partial, computed with packaging only: known defects
-    (or-precedence, 'extra:marker' keys, quoted keys) are listed findings, not new violations"""
+    """the decidable guard of C12_harvest_exact_partial, computed with packaging only (quoted key names stay outside)"""
     from packaging.requirements import Requirement
     from packaging.markers import Marker
 
@@ -2124,17 +2120,13 @@ def in_guard(d: Dict[str, Any]) -> bool:
             e = k.strip()
             if not e:
                 continue
-            if any(ch in e for ch in "\"'\\") and not e.startswith(":"):
+            name, _, env = e.partition(":")
+            if any(ch in name for ch in "\"'\\"):
                 return False
-            if ":" in e and not e.startswith(":"):
-                return False
-            envm = Marker(e[1:]) if e.startswith(":") else None
+            if env.strip():
+                Marker(env)
             for ln in v:
-                q = Requirement(ln)
-                if q.marker is not None and top_or(q.marker):
-                    return False
-                if q.marker is not None and envm is not None and top_or(envm):
-                    return False
+                Requirement(ln)
     except Exception:
         return False
     return True
